@@ -132,8 +132,14 @@ def reqstop_protocol(run, F):
         run.inst(site(f, G.line(x)), 'callbackCompleted_.store(true, release) follows execute()', key='completed')
         good = [n for n in stores if (G.ev[n]['args'] and G.ev[n]['args'][0].get('p') == '#true' and set(memorder(G.ev[n])) & {'release', 'seq_cst', 'acq_rel'})]
         blocked_edges = set()
-        for t, tt, tf in G.branch_edges(lambda e: 'removedDuringCallback' in expr_paths(e['cond'])):
-            pol = _pol_of_path(G.ev[t]['cond'], lambda p: p == 'removedDuringCallback')
+        # the notifier's local flag is whatever local the arming assignment takes the address of (its name is free)
+        flagvars = set()
+        for n2 in rdc:
+            for pth in expr_paths(G.ev[n2].get('rhs')):
+                if pth and not pth.startswith('#') and '.' not in pth: flagvars.add(pth)
+        if not flagvars: flagvars = {'removedDuringCallback'}
+        for t, tt, tf in G.branch_edges(lambda e: bool(flagvars & set(expr_paths(e['cond'])))):
+            pol = _pol_of_path(G.ev[t]['cond'], lambda p: p in flagvars)
             if pol is None: continue
             removed_edge = tt if pol else tf
             if removed_edge is not None: blocked_edges.add((t, removed_edge))
